@@ -224,11 +224,11 @@ func (t *ToyService) Alpha(ctx context.Context, s string, n int64, arg ToyArg) (
 	t.hit("Alpha")
 	return s, nil
 }
-func (t *ToyService) Beta(n int, flag bool) int       { t.hit("Beta"); return n }
-func (t *ToyService) Gamma() string                   { t.hit("Gamma"); return "g" }
+func (t *ToyService) Beta(n int, flag bool) int         { t.hit("Beta"); return n }
+func (t *ToyService) Gamma() string                     { t.hit("Gamma"); return "g" }
 func (t *ToyService) Delta(p *ToyArg, l []string) error { t.hit("Delta"); return nil }
-func (t *ToyService) HelperReset() error              { t.hit("HelperReset"); return nil }
-func (t *ToyService) hidden(s string) string          { t.hit("hidden"); return s }
+func (t *ToyService) HelperReset() error                { t.hit("HelperReset"); return nil }
+func (t *ToyService) hidden(s string) string            { t.hit("hidden"); return s }
 
 // jsonSamples per JSON type
 var jsonSamples = map[string]string{"string": `"x"`, "int": `7`, "float": `1.5`, "bool": `true`, "array": `[1]`, "object": `{"a":"s","b":2}`}
